@@ -18,7 +18,7 @@ from ..rt import Outcome, ev, notrace, conc
 from ..xh import Harness
 from ..main import PropSpec
 
-STATES = ["running-cooperative", "swallowing", "idle-persistent", "finished", "idle-in-context"]
+STATES = ["running-cooperative", "swallowing", "idle-persistent", "finished", "idle-in-context", "finished-in-context"]
 LONG = 300
 
 
@@ -39,6 +39,10 @@ def make_child(addr, st):
     w = PersistentRemoteWorker(None, host=addr, context=7)
     w.enqueue(x=1)
     w.next_result()
+    if st == 5:
+        # a worker of the context that has already been closed and has ended (it stays in the context's bookkeeping)
+        w.close()
+        w.wait(timeout=10)
     return w
 
 
@@ -69,10 +73,10 @@ def _run(W, trigger, states):
     addr = srv.addr
     if addr is None:
         return "c12.server-did-not-start"
-    if 4 in states:
+    if 4 in states or 5 in states:
         RemoteContext(7, host=addr, target=T.ctx_target, args=["g"])
     workers = [(make_child(addr, st), st) for st in states]
-    before = {id(w): (w.has_error, w.result) for (w, st) in workers if st == 3}
+    before = {id(w): (w.has_error, w.result) for (w, st) in workers if st in (3, 5)}
     server_children = [p for pid, p in s.procs.items() if pid != srv.pid]
     t0 = s.clock
     if trigger == 0:
@@ -105,7 +109,7 @@ def _run(W, trigger, states):
         if s.clock - t1 > 30:
             return "c12.parent-side-wait-too-slow|%s" % STATES[st]
         he, res, err = w.has_error, w.result, w.error
-        if st == 3:
+        if st in (3, 5):
             if (he, res) != before[id(w)]:
                 return "c12.finished-worker-outcome-changed"
             continue
@@ -116,7 +120,7 @@ def _run(W, trigger, states):
     return None
 
 
-_params = OrderedDict([("trigger", (0, 2)), ("n", (0, 3)), ("s1", (0, 4)), ("s2", (0, 4)), ("s3", (0, 4))])
+_params = OrderedDict([("trigger", (0, 2)), ("n", (0, 3)), ("s1", (0, 5)), ("s2", (0, 5)), ("s3", (0, 5))])
 
 _FUNCS = ["pyworkers.remote_server:RemoteServer.run", "pyworkers.remote_server:RemoteServer.install_handlers", "pyworkers.remote_server:RemoteServer.break_accept",
           "pyworkers.remote_server:RemoteServerProcess.run", "pyworkers.remote_server:RemoteServerProcess._start", "pyworkers.remote_server:RemoteServerProcess._release_self",
